@@ -110,3 +110,17 @@ Proof.
   induction l as [|x r IH]; cbn; [constructor|]. rewrite andb_true_iff, negb_true_iff. intros [H1 H2].
   constructor; auto. intros Hin. assert (existsb (eqb x) r = true) by (apply existsb_exists; exists x; auto). congruence.
 Qed.
+
+(* Close a goal [l = r] whose left side evaluates to [r] with a single VM
+   evaluation (at Qed time) instead of one in the tactic and one at Qed. *)
+Ltac by_vm := match goal with |- ?l = ?r => vm_cast_no_check (@eq_refl _ r) end.
+
+(* Byte strings shipped by the harness: lower-case hex in a Coq string literal. *)
+Definition hexval (c : ascii) : N :=
+  let n := N_of_ascii c in
+  if (48 <=? n) && (n <=? 57) then n - 48 else if (97 <=? n) && (n <=? 102) then n - 87 else 0.
+Fixpoint hx (s : string) : str :=
+  match s with
+  | String a (String b r) => ascii_of_N (16 * hexval a + hexval b) :: hx r
+  | _ => []
+  end.
